@@ -329,8 +329,8 @@ class Built:
                 obj.update(list(reversed(kids)))
             elif build == 'lateattrs':
                 # attributes assigned after construction, as the tests do
-                bare = dict(spec, window=None, timeout=None, sdt=1,
-                            verbose=False)
+                bare = dict(spec, timeout=None, sdt=1, verbose=False,
+                            window=None if spec.get('window') == 1 else 1)
                 obj = (VPure if k == 'pure' else VSched)(bare, kids)
                 obj.vspec = spec
                 obj.jobs_window = spec.get('window')
